@@ -42,9 +42,10 @@ fn tail(aa: &AA) -> String {
     format!("credit={} st={} sig={}", c, s, g as u8)
 }
 
-fn bal_str(r: Result<Option<usize>, Signals>) -> String {
+fn bal_str(r: Result<Option<usize>, Signals>, st: u8) -> String {
     match r {
-        Ok(Some(usize::MAX)) => "unlimited".into(),
+        // a NORMAL-state credit of exactly usize::MAX (only reachable by wrapping) is not the GRANTED answer
+        Ok(Some(usize::MAX)) if st == 1 => "unlimited".into(),
         Ok(Some(c)) => format!("some:{}", c),
         Ok(None) => "none".into(),
         Err(s) if s == Signals::CREDIT => "wait".into(),
@@ -155,7 +156,7 @@ fn one_case(rng: &mut Rng, sink: &mut Sink, script: Option<&[(u8, u64)]>) {
             }
             1 => {
                 let r = aa.balance();
-                let s = bal_str(r);
+                let s = bal_str(r, peek(&aa).1);
                 sink.branch(&format!("bal:{}", s.split(':').next().unwrap()));
                 sink.line("bal", &format!("{} {}", s, tail(&aa)));
                 held = match r { Ok(Some(c)) => Some(c as u64), _ => None };
@@ -172,7 +173,7 @@ fn one_case(rng: &mut Rng, sink: &mut Sink, script: Option<&[(u8, u64)]>) {
             2 => {
                 // sent
                 let n = if wild {
-                    match rng.below(6) { 0 => before.min(u64::MAX as u128) as u64 + 1 + rng.below(3), 1 => near_wrap(rng), 2 => before.min(u64::MAX as u128) as u64, _ => pick_size(rng) }
+                    match rng.below(6) { 0 => (before.min(u64::MAX as u128) as u64).saturating_add(1 + rng.below(3)), 1 => near_wrap(rng), 2 => before.min(u64::MAX as u128) as u64, _ => pick_size(rng) }
                 } else if script.is_some() { arg } else {
                     match held { Some(c) => match rng.below(5) { 0 => c, 1 => c.min(1200), 2 => c / 2, _ => rng.below(c.min(4000) + 1) }, None => continue }
                 };
@@ -248,7 +249,7 @@ fn one_case(rng: &mut Rng, sink: &mut Sink, script: Option<&[(u8, u64)]>) {
                 sink.monitor_fail("credit_accounting", &format!("credit={} sent={} rcvd={}", after, sent_total, rcvd_total));
             }
         }
-        if kind != 0 && after > before && !undisciplined {
+        if kind != 0 && after > before && !undisciplined && !overflowed {
             sink.monitor_fail("credit_increase_without_rcvd", &format!("credit {} -> {} by op kind {}", before, after, kind));
         }
     }
@@ -299,7 +300,18 @@ fn repo_root() -> String {
 
 fn fn_body<'a>(src: &'a str, name: &str) -> Option<&'a str> {
     let at = src.find(&format!("fn {}", name))?;
-    let open = at + src[at..].find('{')?;
+    // the body is the first `{` at parenthesis depth 0 (skips destructuring patterns in the parameter list)
+    let mut par = 0i32;
+    let mut open = None;
+    for (i, c) in src[at..].char_indices() {
+        match c {
+            '(' => par += 1,
+            ')' => par -= 1,
+            '{' if par == 0 => { open = Some(at + i); break; }
+            _ => {}
+        }
+    }
+    let open = open?;
     let mut depth = 0;
     for (i, c) in src[open..].char_indices() {
         match c {
